@@ -333,11 +333,13 @@ def r_simdate(E):
     rel, fn = pm.find_function(MU, "ModelingUpdate.filter_hourly_quantities_to_filter")
     res.instances += 1
     derived = {"simulation_date"}
+    # (the per-series step may be a helper of the class that the function map()s over the series)
+    fn_nodes = list(nodes_through_helpers(fn, pm.helper_finder("ModelingUpdate"), depth=2))
     for _ in range(3):
-        for n in ast.walk(fn):
+        for n in fn_nodes:
             if isinstance(n, ast.Assign) and isinstance(n.targets[0], ast.Name) and any(d in norm(n.value) for d in derived):
                 derived.add(n.targets[0].id)
-    cmp_ = [n for n in ast.walk(fn) if isinstance(n, ast.Compare) and any(d in norm(n) for d in derived)
+    cmp_ = [n for n in fn_nodes if isinstance(n, ast.Compare) and any(d in norm(n) for d in derived)
             and isinstance(n.ops[0], (ast.Lt, ast.LtE, ast.Gt, ast.GtE))]
     if len(cmp_) != 1:
         # no comparison of timestamps with the date: is the cut made by *position* (rows counted from the date)? That
@@ -1867,10 +1869,39 @@ def r_json_load(E):
                                 f"upgrade handlers run and uses it afterwards (line {use.lineno}): for a 9.x file it "
                                 f"describes the old layout (a 'Hardware' section, no 'Device' section), so whatever is "
                                 f"driven by it skips the renamed objects", rel, a.lineno, "json_to_system"))
+    # every loaded object is switched live: where the objects to activate come out of a generator of the module, each
+    # `yield` sits in loops whose variables it hands out — a yield nested in a loop over something else (the object's
+    # calculated attributes) yields the object once per element of that collection, and not at all when it is empty
+    ff_load = pm.function_finder(rel)
+    for c in [x for x in ast.walk(fn) if isinstance(x, ast.Call) and isinstance(x.func, ast.Name)]:
+        g = ff_load(c.func.id)
+        if g is None or not any(isinstance(y, ast.Yield) for y in ast.walk(g)):
+            continue
+        for y in [y for y in ast.walk(g) if isinstance(y, ast.Yield) and y.value is not None]:
+            res.instances += 1
+            handed = {x.id for x in ast.walk(y.value) if isinstance(x, ast.Name)}
+            p_ = getattr(y, "_parent", None)
+            while p_ is not None and p_ is not g:
+                if isinstance(p_, ast.For):
+                    tv = {x.id for x in ast.walk(p_.target) if isinstance(x, ast.Name)}
+                    # (a loop that only leads to the objects — `for key, objs in d.items(): for obj in objs.values()` — is
+                    # fine when an inner loop variable that is handed out iterates over its variable)
+                    leads = any(isinstance(q, ast.For) and (tv & {x.id for x in ast.walk(q.iter) if isinstance(x, ast.Name)})
+                                for q in ast.walk(p_) if q is not p_)
+                    if not (tv & handed) and not leads:
+                        res.findings.append(Finding(
+                            "R-JSON-LOAD", f"{g.name} yields inside a loop over {norm(p_.iter)[:40]}",
+                            f"{g.name} yields `{norm(y.value)[:40]}` inside `for {norm(p_.target)} in {norm(p_.iter)[:40]}`, a loop "
+                            f"whose variable it does not hand out: an object is yielded once per element of that collection — "
+                            f"not at all when it is empty (classes without calculated attributes are never switched live: "
+                            f"edits on their loaded objects recompute nothing)", rel, y.lineno, g.name))
+                p_ = getattr(p_, "_parent", None)
     # calculated attributes reset
     res.instances += 1
-    reset = [n for n in ast.walk(fn) if isinstance(n, ast.For) and "calculated_attributes" in norm(n.iter)]
-    if not reset or not any("EmptyExplainableObject()" in norm(c) for c in _calls(reset[0])):
+    reset = [n for n in nodes_through_helpers(fn, find_function=pm.function_finder(rel), depth=2)
+             if isinstance(n, ast.For) and "calculated_attributes" in norm(n.iter)]
+    if not reset or not any("EmptyExplainableObject()" in norm(c) for r_ in reset for c in _calls(r_)
+                            if "calculated_attributes" in norm(r_.iter).split("(")[0] or norm(r_.iter).endswith("calculated_attributes")):
         res.findings.append(Finding("R-JSON-LOAD", "calculated attributes not reset",
                                     "loaded objects no longer get an empty placeholder for each calculated attribute", rel,
                                     fn.lineno, "json_to_system"))
